@@ -79,6 +79,7 @@ type UFun struct {
 	RType  string
 	Axioms []*UAxiom
 	Where  string
+	Def    Expr // recursive definition body (nil: only axioms)
 }
 
 type UAxiom struct {
@@ -198,12 +199,23 @@ func (cs *Contracts) LoadContractFile(path, pkgPath string, external bool) {
 			continue
 		case word == "ufun":
 			// ufun name(a T, b U) R   -- uninterpreted spec function with definitional axioms
+			// optional "= body": a recursive definition (encoded with fuel, see ufun.go)
+			var defBody Expr
+			if i := strings.Index(rest, " = "); i > 0 {
+				e, err := ParseExpr(strings.TrimSpace(rest[i+3:]))
+				if err != nil {
+					fail(err.Error())
+					continue
+				}
+				defBody = e
+				rest = strings.TrimSpace(rest[:i])
+			}
 			m := regexp.MustCompile(`^(\w+)\((.*?)\)\s*([\w\[\]\*\.]+)\s*$`).FindStringSubmatch(rest)
 			if m == nil {
 				fail("bad ufun")
 				continue
 			}
-			curUFun = &UFun{Name: m[1], RType: m[3], Pkg: pkgPath, Where: where}
+			curUFun = &UFun{Name: m[1], RType: m[3], Pkg: pkgPath, Where: where, Def: defBody}
 			for _, p := range splitTop(m[2], ',') {
 				f := strings.Fields(strings.TrimSpace(p))
 				if len(f) == 2 {
